@@ -129,7 +129,8 @@ def python_obligations(rep, prop="C12"):
                     ob = Obligation(id=f"{prop}.B.set-iteration.{f}:{fn.name}:{n.lineno}", props=[prop], unit=f"{rel}:{fn.name}",
                                     where=f"{rel}:{n.lineno}", backend="syntactic (python AST)",
                                     formula="a set-typed value is sorted before its order can reach a string / list",
-                                    status=REFUTED, detail=f"`{ast.unparse(n)[:90]}` consumes a set in iteration order")
+                                    status=UNDECIDED, detail=f"`{ast.unparse(n)[:90]}` consumes a set in iteration order; whether "
+                                    f"the order reaches generated text is not decided syntactically (see the hash-seed stand-in)")
                     out.append(rep.add(ob))
                 # positive evidence: sorted(...) over set expressions
                 for n in ast.walk(fn):
